@@ -1,6 +1,7 @@
 import Lean.Data.Json
 import OapiVerif.Model.Prune
 import OapiVerif.Model.Filter
+import OapiVerif.Model.Codec
 /-!
 Line-protocol driver: one JSON object per line in, one per line out.
 `{"fn": <name>, ...}` ↦ `{"ok": <result>}` or `{"err": "bad-op"}` (never a default).
@@ -34,10 +35,127 @@ def filter (j : Json) : Except String Json := do
            ← o.getObjValAs? String "id", []⟩ : Filter.Op)
   pure (jstrs ((Filter.filterDoc cfg ops).map (fun o => o.method ++ " " ++ o.path)))
 
+/-! byte strings travel as lowercase hex -/
+def hexVal (c : Char) : Option Nat :=
+  if '0' ≤ c ∧ c ≤ '9' then some (c.toNat - 48)
+  else if 'a' ≤ c ∧ c ≤ 'f' then some (c.toNat - 87) else none
+
+def unhexStr (s : String) : Except String (List Nat) :=
+  let rec go : List Char → Except String (List Nat)
+    | [] => .ok []
+    | a :: b :: rest => match hexVal a, hexVal b with
+      | some x, some y => do pure ((x * 16 + y) :: (← go rest))
+      | _, _ => .error "bad-hex"
+    | [_] => .error "bad-hex"
+  go s.toList
+
+def hexDigitC (n : Nat) : Char := Char.ofNat (if n < 10 then 48 + n else 87 + n)
+def hexStr (l : List Nat) : String := String.ofList (l.flatMap fun b => [hexDigitC (b / 16), hexDigitC (b % 16)])
+
+def getHex (j : Json) (k : String) : Except String (List Nat) := do
+  unhexStr (← j.getObjValAs? String k)
+
+def getHexList (j : Json) (k : String) : Except String (List (List Nat)) := do
+  let a ← j.getObjValAs? (Array String) k
+  a.toList.mapM unhexStr
+
+open Codec in
+def getStyle (j : Json) : Except String Style := do
+  match ← j.getObjValAs? String "style" with
+  | "simple" => pure .simple | "label" => pure .label | "matrix" => pure .matrix | "form" => pure .form
+  | _ => throw "bad-style"
+
+open Codec in
+def getLoc (j : Json) : Except String Loc := do
+  match ← j.getObjValAs? String "loc" with
+  | "path" => pure .path | "query" => pure .query | "header" => pure .header | "cookie" => pure .cookie
+  | "undefined" => pure .undefined
+  | _ => throw "bad-loc"
+
+open Codec in
+def getShape (j : Json) : Except String Shape := do
+  match ← j.getObjValAs? String "shape" with
+  | "prim" => pure .prim | "arr" => pure .arr | "obj" => pure .obj
+  | _ => throw "bad-shape"
+
+open Codec in
+def getVal (j : Json) : Except String Val := do
+  let v ← j.getObjVal? "val"
+  match ← v.getObjValAs? String "k" with
+  | "prim" => pure (.prim (← getHex v "s"))
+  | "arr" => pure (.arr (← getHexList v "xs"))
+  | "obj" =>
+    let ks ← getHexList v "keys"
+    let vs ← getHexList v "vals"
+    if ks.length != vs.length then throw "bad-obj"
+    pure (.obj (ks.zip vs))
+  | _ => throw "bad-val"
+
+open Codec in
+def valJson : Val → Json
+  | .prim s => Json.mkObj [("k", "prim"), ("s", hexStr s)]
+  | .arr xs => Json.mkObj [("k", "arr"), ("xs", jstrs (xs.map hexStr))]
+  | .obj kvs => Json.mkObj [("k", "obj"), ("keys", jstrs (kvs.map (hexStr ·.1))), ("vals", jstrs (kvs.map (hexStr ·.2)))]
+
+def exceptJson (e : Except String Json) : Json :=
+  match e with
+  | .ok j => Json.mkObj [("ok", j)]
+  | .error m => Json.mkObj [("error", m)]
+
+open Codec in
+def styleParamD (j : Json) : Except String Json := do
+  pure (hexStr (styleParam (← getStyle j) (← j.getObjValAs? Bool "explode") (← getHex j "name") (← getLoc j) (← getVal j)))
+
+open Codec in
+def oasSerializeD (j : Json) : Except String Json := do
+  pure (hexStr (oasSerialize (← getStyle j) (← j.getObjValAs? Bool "explode") (← getHex j "name") (← getVal j)))
+
+open Codec in
+def oasWireD (j : Json) : Except String Json := do
+  pure (hexStr (oasWire (← getStyle j) (← j.getObjValAs? Bool "explode") (← getHex j "name") (← getLoc j) (← getVal j)))
+
+open Codec in
+def parseQueryD (j : Json) : Except String Json := do
+  let r := parseQuery (← getHex j "wire")
+  pure (exceptJson (r.map fun q => Json.arr (q.map fun e => Json.mkObj [("k", hexStr e.1), ("vs", jstrs (e.2.map hexStr))]).toArray))
+
+open Codec in
+def bindStyledD (j : Json) : Except String Json := do
+  let r := bindStyled (← getStyle j) (← j.getObjValAs? Bool "explode") (← j.getObjValAs? Bool "required")
+    (← getHex j "name") (← getLoc j) (← getShape j) (← getHex j "wire")
+  pure (exceptJson (r.map valJson))
+
+open Codec in
+def bindQueryD (j : Json) : Except String Json := do
+  let wire ← getHex j "wire"
+  let r : Except String (Option Val) := do
+    let q ← parseQuery wire
+    bindQuery (← j.getObjValAs? Bool "explode") (← j.getObjValAs? Bool "required") (← getHex j "name")
+      (← getShape j) (← getHexList j "fields") q
+  pure (exceptJson (r.map fun o => match o with | none => Json.null | some v => valJson v))
+
+open Escape in
+def escapeD (j : Json) : Except String Json := do
+  let m := if (← j.getObjValAs? String "mode") == "path" then Mode.path else Mode.query
+  pure (hexStr (escape m (← getHex j "s")))
+
+open Escape in
+def unescapeD (j : Json) : Except String Json := do
+  let m := if (← j.getObjValAs? String "mode") == "path" then Mode.path else Mode.query
+  pure (match unescape m (← getHex j "s") with | some r => Json.str (hexStr r) | none => Json.null)
+
 def dispatch (fn : String) (j : Json) : Except String Json :=
   match fn with
   | "prune" => prune j
   | "filter" => filter j
+  | "styleParam" => styleParamD j
+  | "oasSerialize" => oasSerializeD j
+  | "oasWire" => oasWireD j
+  | "parseQuery" => parseQueryD j
+  | "bindStyled" => bindStyledD j
+  | "bindQuery" => bindQueryD j
+  | "escape" => escapeD j
+  | "unescape" => unescapeD j
   | _ => .error "bad-op"
 
 def handle (line : String) : String :=
